@@ -128,3 +128,56 @@ package evaluator
 //@ func BuiltinDecls() (b parser.Builtins)
 //@   noverify used by the evy command (C18)
 //@   modifies nothing
+
+// ---- C13: conversions report failure through the globals err / errmsg, never by a panic ----
+
+// The error globals are set through these two helpers (which look the globals up in the outermost scope).
+//@ func resetGlobalErr(scope *scope) ()
+//@   noverify sets err = false, errmsg = ""
+//@   modifies class evaluator.boolVal.V, class evaluator.stringVal.V, class evaluator.stringVal.runeSlice
+
+//@ func setGlobalErr(scope *scope, msg string) ()
+//@   noverify sets err = true, errmsg = msg
+//@   modifies class evaluator.boolVal.V, class evaluator.stringVal.V, class evaluator.stringVal.runeSlice
+
+//@ func str2numFunc(scope *scope, args []value) (r value, err error)
+//@   props C13
+//@   requires strArg(args, 0)
+//@   ensures[C13 str2num-value] err == nil && is(r, *numVal) && fresh(r) && ncalls("ParseFloat") == 1 && same(r.(*numVal).V, callres("ParseFloat", 1, 0).(float64)) && callarg("ParseFloat", 1, 1).(int) == 64
+//@   ensures[C13 str2num-err-protocol] ncalls("resetGlobalErr") == 1 && (ncalls("setGlobalErr") == 1 <==> callres("ParseFloat", 1, 1) != nil) && ncalls("setGlobalErr") <= 1
+//@   modifies class evaluator.boolVal.V, class evaluator.stringVal.V, class evaluator.stringVal.runeSlice
+
+//@ func str2boolFunc(scope *scope, args []value) (r value, err error)
+//@   props C13
+//@   requires strArg(args, 0)
+//@   ensures[C13 str2bool-value] err == nil && is(r, *boolVal) && fresh(r) && ncalls("ParseBool") == 1 && r.(*boolVal).V == callres("ParseBool", 1, 0).(bool)
+//@   ensures[C13 str2bool-err-protocol] ncalls("resetGlobalErr") == 1 && (ncalls("setGlobalErr") == 1 <==> callres("ParseBool", 1, 1) != nil) && ncalls("setGlobalErr") <= 1
+//@   modifies class evaluator.boolVal.V, class evaluator.stringVal.V, class evaluator.stringVal.runeSlice
+
+//@ func typeofFunc(_ *scope, args []value) (r value, err error)
+//@   props C13
+//@   requires len(args) >= 1 && is(args[0], *anyVal) && ref(args[0]) != 0
+//@   ensures[C13 typeof] err == nil && is(r, *stringVal) && fresh(r) && ncalls("(*Type).String") == 1 && callarg("(*Type).String", 1, 0).(*parser.Type) == args[0].(*anyVal).T && r.(*stringVal).V == callres("(*Type).String", 1, 0).(string)
+//@   modifies nothing
+
+//@ func join(args []value, sep string) (s string)
+//@   props C13 C08
+//@   requires forall(i, int, 0 <= i && i < len(args) ==> args[i] != nil)
+//@   ensures[C13 C08 elements-in-order] ncalls("(value).String") == len(args) && forall(j, int, 1 <= j && j <= len(args) ==> callarg("(value).String", j, 0) == args[j-1])
+//@   ensures[C13 joined] ncalls("Join") == 1 && s == callres("Join", 1, 0).(string) && callarg("Join", 1, 1).(string) == sep
+//@   modifies nothing
+//@   loop 1 modifies argStrings[*]
+//@   loop 1 invariant -1 <= rangeindex && rangeindex < len(args) && ncalls("(value).String") == rangeindex + 1 && ncalls("Join") == 0 && fresh(argStrings) && len(argStrings) == len(args) && off(argStrings) == 0
+//@   loop 1 invariant forall(j, int, 1 <= j && j <= rangeindex + 1 ==> callarg("(value).String", j, 0) == args[j-1])
+//@   loop 1 invariant forall(i, int, 0 <= i && i <= rangeindex ==> argStrings[i] == callres("(value).String", i + 1, 0))
+
+//@ func splitFunc(_ *scope, args []value) (r value, err error)
+//@   props C13 C09
+//@   requires strArg(args, 0) && strArg(args, 1)
+//@   let parts = callres("Split", 1, 0)
+//@   ensures[C13 split] err == nil && is(r, *arrayVal) && fresh(r) && ncalls("Split") == 1 && callarg("Split", 1, 0).(string) == args[0].(*stringVal).V && callarg("Split", 1, 1).(string) == args[1].(*stringVal).V
+//@   ensures[C13 C09 split-elements] fresh(r.(*arrayVal).Elements) && len(*r.(*arrayVal).Elements) == len(parts) && forall(i, int, 0 <= i && i < len(parts) ==> is((*r.(*arrayVal).Elements)[i], *stringVal) && fresh((*r.(*arrayVal).Elements)[i]) && (*r.(*arrayVal).Elements)[i].(*stringVal).V == parts[i])
+//@   modifies nothing
+//@   loop 1 modifies elements[*]
+//@   loop 1 invariant -1 <= rangeindex && rangeindex < len(slice) && fresh(elements) && len(elements) == len(slice) && off(elements) == 0
+//@   loop 1 invariant forall(i, int, 0 <= i && i <= rangeindex ==> is(elements[i], *stringVal) && fresh(elements[i]) && elements[i].(*stringVal).V == slice[i])
